@@ -49,10 +49,13 @@ def dictSet {β : Type} (d : AL β) (k : Id) (v : β) : AL β :=
 
 /-! ### `str.split()` -/
 
-/-- `str.isspace` on the characters the generators produce (ASCII + NEL + NBSP). -/
-def isSpace (c : Char) : Bool :=
-  c.toNat = 32 || (9 ≤ c.toNat && c.toNat ≤ 13) || (28 ≤ c.toNat && c.toNat ≤ 31)
-    || c.toNat = 0x85 || c.toNat = 0xA0
+/-- the code points on which `str.split()` splits (every one below U+3001; pinned against the
+live `_normalize_update` by `c17_pins`) -/
+def spaceCodes : List Nat :=
+  [9, 10, 11, 12, 13, 28, 29, 30, 31, 32, 133, 160, 5760, 8192, 8193, 8194, 8195, 8196, 8197, 8198,
+   8199, 8200, 8201, 8202, 8232, 8233, 8239, 8287, 12288]
+
+def isSpace (c : Char) : Bool := spaceCodes.contains c.toNat
 
 def splitWsAux : List Char → List Char → List (List Char)
   | cur, [] => if cur.isEmpty then [] else [cur.reverse]
@@ -63,6 +66,10 @@ def splitWsAux : List Char → List Char → List (List Char)
 
 /-- `s.split()` -/
 def splitWs (s : List Char) : List (List Char) := splitWsAux [] s
+
+/-- the normaliser of `tfs.TypeHierarchy` and of `semi._new_hierarchy` (`str.lower`) on ASCII
+identifiers (pinned on the ASCII range by `c17_pins`) -/
+def lowerId (s : Id) : Id := s.map Char.toLower
 
 /-! ### state -/
 
